@@ -377,14 +377,37 @@ void out_frame(int fd, char tag, const void* p, size_t n) {
     if (n) write_all(fd, p, n);
 }
 
-bool read_world(int fd) {
-    W = World();
+// The zygote keeps the world description as raw bytes in a region mapped once; it is parsed in the child, after
+// the fork.  The parent's heap therefore never changes between runs and every child starts from the very same
+// heap: a run is a function of its world alone, even when the tool reads freed or uninitialised heap memory.
+const size_t WORLDBUF_SIZE = 64u << 20;
+char* g_worldbuf = nullptr;
+size_t g_worldlen = 0;
+
+bool read_world_raw(int fd) {
+    g_worldlen = 0;
     for (;;) {
         char h[5];
         read_exact(fd, h, 5);
         uint32_t n; memcpy(&n, h + 1, 4);
-        std::string p(n, '\0');
-        if (n) read_exact(fd, &p[0], n);
+        if (g_worldlen + 5 + n > WORLDBUF_SIZE) _exit(4);
+        memcpy(g_worldbuf + g_worldlen, h, 5);
+        if (n) read_exact(fd, g_worldbuf + g_worldlen + 5, n);
+        g_worldlen += 5 + n;
+        if (h[0] == '.') return true;
+    }
+}
+
+bool parse_world() {
+    W = World();
+    size_t pos = 0;
+    for (;;) {
+        if (pos + 5 > g_worldlen) return true;
+        char h[5];
+        memcpy(h, g_worldbuf + pos, 5);
+        uint32_t n; memcpy(&n, h + 1, 4);
+        std::string p(g_worldbuf + pos + 5, n);
+        pos += 5 + n;
         switch (h[0]) {
         case '.': return true;
         case 'a': W.argv.push_back(p); break;
@@ -420,6 +443,7 @@ __attribute__((constructor(101))) void register_final() {
 
 int child_run() {
     g_in_child = true;
+    parse_world();
     std::set_terminate(terminate_handler);
     install_world_streams();
     std::vector<char*> av;
@@ -559,8 +583,10 @@ int __wrap_main(int argc, char** argv) {
     int rawfd = memfd_create("btcsim-raw", 0);
     if (rawfd < 0) { perror("memfd_create"); return 3; }
     out_frame(ctl_out, 'Y', "ready", 5);
+    g_worldbuf = (char*)mmap(nullptr, WORLDBUF_SIZE, PROT_READ | PROT_WRITE, MAP_PRIVATE | MAP_ANONYMOUS, -1, 0);
+    if (g_worldbuf == MAP_FAILED) { perror("mmap"); return 3; }
     for (;;) {
-        read_world(ctl_in);
+        read_world_raw(ctl_in);
         g_shm->len = 0; g_shm->overflow = 0; g_last_off = (size_t)-1;
         if (ftruncate(rawfd, 0) != 0) {}
         lseek(rawfd, 0, SEEK_SET);
@@ -576,27 +602,32 @@ int __wrap_main(int argc, char** argv) {
         }
         int st = 0;
         while (waitpid(pid, &st, 0) < 0 && errno == EINTR) {}
-        std::string tail;
-        auto add = [&tail](char tag, const void* p, size_t n) {
-            char h[5]; h[0] = tag; uint32_t n32 = (uint32_t)n; memcpy(h + 1, &n32, 4);
-            tail.append(h, 5); tail.append((const char*)p, n);
+        // no heap use here (see read_world_raw): the tail is assembled in a static buffer
+        static char tail[1 << 20];
+        size_t tn = 0;
+        auto add = [&tn](char tag, const void* p, size_t n) {
+            if (tn + 5 + n > sizeof tail) n = sizeof tail - tn - 5;
+            tail[tn] = tag; uint32_t n32 = (uint32_t)n; memcpy(tail + tn + 1, &n32, 4);
+            memcpy(tail + tn + 5, p, n);
+            tn += 5 + n;
         };
         if (g_shm->overflow) add('V', "overflow", 8);
         off_t rawlen = lseek(rawfd, 0, SEEK_END);
         if (rawlen > 0) {
-            std::string raw((size_t)rawlen, '\0');
-            ssize_t got = pread(rawfd, &raw[0], (size_t)rawlen, 0);
-            if (got > 0) add('X', raw.data(), (size_t)got);
+            static char raw[512 << 10];
+            size_t want = (size_t)rawlen < sizeof raw ? (size_t)rawlen : sizeof raw;
+            ssize_t got = pread(rawfd, raw, want, 0);
+            if (got > 0) add('X', raw, (size_t)got);
         }
         char wb[64];
         int wn = WIFEXITED(st) ? snprintf(wb, sizeof wb, "exited %d", WEXITSTATUS(st))
                                : snprintf(wb, sizeof wb, "signaled %d", WIFSIGNALED(st) ? WTERMSIG(st) : -1);
         add('W', wb, (size_t)wn);
         // one batch: 'B' <total length> then all frames
-        char h[5]; h[0] = 'B'; uint32_t tot = g_shm->len + (uint32_t)tail.size(); memcpy(h + 1, &tot, 4);
+        char h[5]; h[0] = 'B'; uint32_t tot = g_shm->len + (uint32_t)tn; memcpy(h + 1, &tot, 4);
         write_all(ctl_out, h, 5);
         write_all(ctl_out, (const void*)g_shm->data, g_shm->len);
-        write_all(ctl_out, tail.data(), tail.size());
+        write_all(ctl_out, tail, tn);
     }
 }
 
